@@ -658,7 +658,10 @@ def measure(rep, stream, x, ctx, kinds):
             rep.stat(stream, "anyof-value:" + {True: "distinguishes-the-options", False: "does-not-distinguish", None: "not-measured"}[d])
             for name in rej:
                 rep.stat(stream, "anyof-earlier-option-rejects-with:" + name)
+            if d and rej:
+                rep.stat(stream, "instances-with:anyof-earlier-option-rejects")
             if d and any(n not in ("TypeError", "ValueError") for n in rej):
+                # none since the repair of F9 / DecimalNumber.deserialize (IndexError, InvalidOperation): measured only
                 rep.stat(stream, "instances-with:anyof-earlier-option-rejects-with-other-than-TypeError/ValueError")
         if isinstance(v, _enum.Enum):
             if not v.value:
@@ -729,9 +732,12 @@ def thresholds(rep):
     need = [("roundtrip", "instances-with:multi-option-anyof-value", 15), ("roundtrip", "instances-with:falsy-value", 100),
             ("roundtrip", "instances-with:enum-member-of-falsy-value", 5), ("lattice", "instances-with:enum-member-of-falsy-value", 100),
             ("serializable-leaves", "kind:decimal", 30), ("serializable-leaves", "kind:date", 30),
-            ("roundtrip", "instances-with:anyof-earlier-option-rejects-with-other-than-TypeError/ValueError", 5),
-            ("lattice", "instances-with:anyof-earlier-option-rejects-with-other-than-TypeError/ValueError", 20),
-            ("serializable-leaves", "instances-with:anyof-earlier-option-rejects-with-other-than-TypeError/ValueError", 3)]
+            # "every earlier option rejects the document, with whatever exception": the deserializers of the generated
+            # options raise TypeError/ValueError only since F9 and DecimalNumber.deserialize were repaired (IndexError,
+            # InvalidOperation before), so the floor is on rejections of any class
+            ("roundtrip", "instances-with:anyof-earlier-option-rejects", 25),
+            ("lattice", "instances-with:anyof-earlier-option-rejects", 100),
+            ("serializable-leaves", "instances-with:anyof-earlier-option-rejects", 15)]
     bad = []
     for stream, key, n in need:
         got = rep.cov["streams"].get(stream, {}).get("dist", {}).get(key, 0)
